@@ -7,4 +7,6 @@ AlphaSmall == {"LiteralToken", "CellIdentifierToken", "MatrixOfCellIdentifiersTo
 AlphaTiny == {"LiteralToken", "CellIdentifierToken", "BracketStartToken", "BracketFinishToken", "SeparatorToken",
               "PlusOperatorToken", "MinusOperatorToken", "AmpersandToken", "PercentToken", "EqOperatorToken",
               "SumKeywordToken", "TodayKeywordToken"}
+\* operands, postfix % and two operators only: longer chains than the wide alphabets can afford (5%6%, 2%+3%%, ...)
+AlphaPct == {"LiteralToken", "CellIdentifierToken", "PercentToken", "PlusOperatorToken", "AmpersandToken"}
 ====
